@@ -9,13 +9,14 @@ import vlib
 
 # Proof modules in dependency order (compiled by coqc directly until they are listed in coq/_CoqProject):
 #   C21/PolyModel.v C21/PolySpec.v C21/PolyList.v C21/PolyDict.v C21/PolyKron.v C21/PolyProofs.v
-#   C21/PolyFits.v C21/PolyProofs2.v
+#   C21/PolyFits.v C21/PolyProofs2.v C21/PolyFitsZ.v C21/PolyFitsZ2.v
 PROOF_MODULES = []
 OBLIGATIONS = ["C21/P_%s.v" % n for n in (
     "repr_int", "repr_rat", "degree_lc_int", "degree_lc_rat", "add_sub_neg_int", "add_sub_neg_rat",
     "mul_generic_int", "mul_generic_rat", "kronecker_correct", "mul_upoly_int", "mul_upoly_rat",
     "pow_int", "pow_rat", "eval_diff_int", "eval_diff_rat", "divides_int", "divides_rat",
     "divides_complete_int", "divides_complete_rat", "pow_rat_simple", "divides_rat_simple",
+    "pow_int_simple", "divides_int_simple",
     "loops_terminate", "nonvacuous")]
 
 W32 = 1 << 32
@@ -336,7 +337,10 @@ def run(ctx):
         "(Z / Qc operations of the Coq standard library)",
         "std::map<unsigned, T> behaves as a strictly sorted association list (lower_bound/insert/erase/operator[])",
         "rational coefficients: pow needs n * deg a < 2^32 and divides deg b < 2^32 only (P_pow_rat_simple, P_divides_rat_simple); "
-        "integer coefficients: pow / divides are stated under zpow_fits / zdivides_fits (every product formed satisfies fits_u32)",
+        "integer coefficients: pow / divides are stated under zpow_fits / zdivides_fits (every product formed satisfies fits_u32) "
+        "and under explicit sufficient conditions (P_pow_int_simple: n*deg a < 2^32 and n*(bit_length(deg a + 1) + "
+        "bit_length(max|a|)) + 36 < 2^32; P_divides_int_simple: deg b < 2^32 and (deg b + 1)*bit_length(max|a| + 1) + "
+        "bit_length(max|a|) + bit_length(max|b|) + 36 < 2^32)",
         "UExprPoly (expression coefficients) instantiates the same ODictWrapper templates that the theorems cover at Z and Q; it is "
         "exercised on the library only, against the expanded symbolic result (driver family E); from_basic/as_symbolic are covered "
         "by the round-trip oracle on generated expressions only (family B), not by theorems",
